@@ -1034,8 +1034,9 @@ int EGLPNUM_TYPENAME_ILLlib_addrows (
 
 		lp->nrows = lp->O->nrows;
 		lp->ncols = lp->O->ncols;
-		if (B->rownorms_size < lp->O->nrows + num)
-			EGLPNUM_TYPENAME_EGlpNumReallocArray (&(B->rownorms), lp->O->nrows + num);
+		/* rownorms_size is never maintained; the array knows its own size and
+		 * the reallocation is a no-op when it is already large enough */
+		EGLPNUM_TYPENAME_EGlpNumReallocArray (&(B->rownorms), lp->O->nrows + num);
 
 		ILL_SAFE_MALLOC (bcnt, num, int);
 		ILL_SAFE_MALLOC (bbeg, num, int);
@@ -1154,8 +1155,7 @@ int EGLPNUM_TYPENAME_ILLlib_addrows (
 			MESSAGE (__QS_SB_VERB, "Singular Basis found!");
 		*factorok = 1;
 
-		if (B->rownorms_size < lp->O->nrows)
-			EGLPNUM_TYPENAME_EGlpNumReallocArray (&(B->rownorms), lp->O->nrows);
+		EGLPNUM_TYPENAME_EGlpNumReallocArray (&(B->rownorms), lp->O->nrows);
 
 		ILL_SAFE_MALLOC (rindi, lp->O->nrows /* num */ , int);
 
